@@ -45,27 +45,23 @@ func runC28(c *an.Ctx) {
 	sort.Strings(nsVals)
 	newPath := p.Func(pp, "", "NewPath")
 	s2s, seg2s := p.Func(pp, "", "StringToSegments"), p.Func(pp, "", "SegmentsToString")
-	fStr, fNS, fRoot := p.Field(pp, "path", "str"), p.Field(pp, "path", "namespace"), p.Field(pp, "ImmutablePath", "rootCid")
-	if !c.Need(newPath != nil && len(newPath.Params) == 1 && s2s != nil && seg2s != nil, "path.NewPath/StringToSegments/SegmentsToString") || !c.Need(fStr != nil && fNS != nil && fRoot != nil, "path.path.str/namespace, ImmutablePath.rootCid") {
+	plainName, fStr, fNS, fRoot := c28PathRoles(p)
+	c28NSField = fNS
+	if !c.Need(newPath != nil && len(newPath.Params) == 1 && s2s != nil && seg2s != nil, "path.NewPath/StringToSegments/SegmentsToString") || !c.Need(fStr != nil && fNS != nil && fRoot != nil, "the unexported Path implementation with its printed-string and namespace fields, and ImmutablePath's root CID field") {
 		return
 	}
 	npName := an.FuncName(newPath)
 	in := newPath.Params[0]
 
-	// segments = StringToSegments(input)
-	var segCalls []ssa.Value
-	for _, call := range an.Calls(newPath, an.M(pp, "-", "StringToSegments")) {
-		if cv := an.CallValue(call); cv != nil && c25RootsIn(cv.Call.Args[0], []ssa.Value{in}) {
-			segCalls = append(segCalls, cv)
-		}
+	fns := p.PkgFuncs(pp)
+	// segments: any value that resolves (through package-local helpers and their callers) to StringToSegments(input)
+	isSegs := func(fn *ssa.Function, v ssa.Value) bool {
+		return c28DeepAll(fns, fn, v, func(l c28DV) bool { return c28IsSegments(fns, l) })
 	}
-	if !c.Need(len(segCalls) > 0, "NewPath: segments := StringToSegments(str)") {
-		return
-	}
-	segAt := func(idx int64) func(ssa.Value) bool {
+	segAtIn := func(fn *ssa.Function, idx int64) func(ssa.Value) bool {
 		return func(v ssa.Value) bool {
-			s, i, ok := c27Indexed(c28Root(v))
-			return ok && c25RootsIn(s, segCalls) && c25IsInt(idx)(i)
+			s0, i, ok := c27Indexed(c28Root(v))
+			return ok && c25IsInt(idx)(i) && isSegs(fn, s0)
 		}
 	}
 	isStrConst := func(want string) func(ssa.Value) bool {
@@ -74,28 +70,51 @@ func runC28(c *an.Ctx) {
 			return ok && k.Kind() == constant.String && constant.StringVal(k) == want
 		}
 	}
-	// constants segments[0] is compared with
+	// the family of NewPath: itself and the unexported helpers that receive the input (depth 2)
+	rootEnv := c25Env{fn: newPath, vals: map[string][]ssa.Value{"in": {in}}}
+	family := c25EnvFamily(rootEnv)
+	// the dispatch function: the member that compares segments[0] with string constants
+	var disp *ssa.Function
 	cmpConsts := map[string]bool{}
-	an.Instrs(newPath, func(i ssa.Instruction) {
-		if bo, ok := i.(*ssa.BinOp); ok && (bo.Op == token.EQL || bo.Op == token.NEQ) {
-			for _, sd := range [][2]ssa.Value{{bo.X, bo.Y}, {bo.Y, bo.X}} {
-				if k, ok := an.ConstOf(sd[1]); ok && k.Kind() == constant.String && segAt(0)(sd[0]) {
-					cmpConsts[constant.StringVal(k)] = true
+	for _, e := range family {
+		found := map[string]bool{}
+		fnE := e.fn
+		an.Instrs(fnE, func(i ssa.Instruction) {
+			if bo, ok := i.(*ssa.BinOp); ok && (bo.Op == token.EQL || bo.Op == token.NEQ) {
+				for _, sd := range [][2]ssa.Value{{bo.X, bo.Y}, {bo.Y, bo.X}} {
+					if k, ok := an.ConstOf(sd[1]); ok && k.Kind() == constant.String && segAtIn(fnE, 0)(sd[0]) {
+						found[constant.StringVal(k)] = true
+					}
 				}
 			}
+		})
+		if len(found) > len(cmpConsts) {
+			disp, cmpConsts = fnE, found
 		}
-	})
-	eqEdges := func(v string) an.EdgeSet { return c25RelEdges(newPath, segAt(0), isStrConst(v), c25EQ, 0) }
-	fns := p.PkgFuncs(pp)
-	succ0, undec := c25SuccessReturns(newPath, 1)
-	succ := append([]*ssa.Return{}, succ0...)
-	for _, r := range undec {
-		// `return helper(...)`: succeeds when the package-local helper does
-		if hc, ok := c25RootCall(r.Results[1], an.M(pp, "", "")); ok && c25InPkgHelper(newPath, hc.Call.StaticCallee()) {
-			succ = append(succ, r)
-		} else {
-			c.Problem("undecided: NewPath has a return whose error is neither nil, nor a known error, nor the result of a package-local helper (%s)", p.Pos(r.Pos()))
+	}
+	if !c.Need(disp != nil, "the namespace dispatch of NewPath (comparison of segments[0] of StringToSegments(input) with constants)") {
+		return
+	}
+	dname := an.FuncName(disp)
+	eqEdges := func(v string) an.EdgeSet { return c25RelEdges(disp, segAtIn(disp, 0), isStrConst(v), c25EQ, 0) }
+	possible := func(fn *ssa.Function) []*ssa.Return {
+		idx := fn.Signature.Results().Len() - 1
+		s0, und := c25SuccessReturns(fn, idx)
+		out := append([]*ssa.Return{}, s0...)
+		for _, r := range und {
+			// `return helper(...)`: succeeds when the package-local helper does
+			if hc, ok := c25RootCall(r.Results[idx], an.M(pp, "", "")); ok && c25InPkgHelper(fn, hc.Call.StaticCallee()) {
+				out = append(out, r)
+			} else {
+				c.Problem("undecided: %s has a return whose error is neither nil, nor a known error, nor the result of a package-local helper (%s)", an.FuncName(fn), p.Pos(r.Pos()))
+			}
 		}
+		return out
+	}
+	succ := possible(newPath)
+	dsucc := succ
+	if disp != newPath {
+		dsucc = possible(disp)
 	}
 	c.Min("O1 possibly successful returns of NewPath", len(succ), 1)
 	allEq := an.EdgeSet{}
@@ -103,15 +122,15 @@ func runC28(c *an.Ctx) {
 		allEq = allEq.Union(eqEdges(k))
 	}
 	// ---- O1 accepted set
-	okAll := len(allEq) > 0
-	for _, r := range succ {
-		if !an.GuardedBy(newPath, nil, r, allEq) {
+	okAll := len(allEq) > 0 && len(dsucc) > 0
+	for _, r := range dsucc {
+		if !an.GuardedBy(disp, nil, r, allEq) {
 			okAll = false
 		}
 	}
-	c.Check(okAll, "O1", "R-EXH", npName, "success only for a listed namespace", newPath.Pos(), "every success return lies on an equal edge of segments[0] with a namespace constant", "NewPath can succeed without segments[0] being known equal to a namespace constant (default case accepts): unknown namespaces parse as valid paths")
+	c.Check(okAll, "O1", "R-EXH", dname, "success only for a listed namespace", disp.Pos(), "every success return lies on an equal edge of segments[0] with a namespace constant", "NewPath can succeed without segments[0] being known equal to a namespace constant (default case accepts): unknown namespaces parse as valid paths")
 	isImm := func(r *ssa.Return) bool {
-		for _, lf := range c28Deep(fns, newPath, r.Results[0], 0) {
+		for _, lf := range c28Deep(fns, disp, r.Results[0], 0) {
 			if an.TypeIs(lf.v.Type(), pp, "ImmutablePath") {
 				return true
 			}
@@ -126,9 +145,9 @@ func runC28(c *an.Ctx) {
 				others = others.Union(eqEdges(k2))
 			}
 		}
-		for _, r := range succ {
+		for _, r := range dsucc {
 			// r reachable although all other namespaces' equal edges are cut => reachable through k's
-			if an.Reaches(newPath, nil, r, others, nil) {
+			if an.Reaches(disp, nil, r, others, nil) {
 				accepted[k] = true
 				if isImm(r) {
 					immutable[k] = true
@@ -137,11 +156,11 @@ func runC28(c *an.Ctx) {
 		}
 	}
 	acc := c28Keys(accepted)
-	c.Check(strings.Join(acc, ",") == strings.Join(nsVals, ","), "O1", "R-TABLE", npName, "accepted namespaces = namespace constants", newPath.Pos(), "NewPath accepts exactly {"+strings.Join(acc, ",")+"}",
+	c.Check(strings.Join(acc, ",") == strings.Join(nsVals, ","), "O1", "R-TABLE", dname, "accepted namespaces = namespace constants", disp.Pos(), "NewPath accepts exactly {"+strings.Join(acc, ",")+"}",
 		"NewPath accepts {"+strings.Join(acc, ",")+"} but the namespace constants are {"+strings.Join(nsVals, ",")+"}: a declared namespace does not parse or an undeclared one does")
 
 	// ---- O1 Mutable() agrees with the immutable set
-	if mut := p.Func(pp, "path", "Mutable"); c.Need(mut != nil, "path.path.Mutable") {
+	if mut := p.Func(pp, plainName, "Mutable"); c.Need(mut != nil, "Mutable() of the unexported Path implementation") {
 		for _, v := range nsVals {
 			got, ok := c28EvalBool(mut, v)
 			if !ok {
@@ -164,7 +183,6 @@ func runC28(c *an.Ctx) {
 	}
 
 	// ---- O2 guards of NewPath (established in NewPath or in package-local helpers it calls)
-	rootEnv := c25Env{fn: newPath, vals: map[string][]ssa.Value{"in": {in}, "segs": segCalls}}
 	req := func(construct string, mk c25Req, okD, badD string) {
 		good := true
 		for _, r := range succ {
@@ -174,8 +192,8 @@ func runC28(c *an.Ctx) {
 		}
 		c.Check(good, "O2", "R-DOM", npName, construct, newPath.Pos(), okD, badD)
 	}
-	inRole := func(e c25Env, role string) func(ssa.Value) bool {
-		return func(v ssa.Value) bool { return len(e.vals[role]) > 0 && c25RootsIn(v, e.vals[role]) }
+	isInputIn := func(fn *ssa.Function) func(ssa.Value) bool {
+		return func(v ssa.Value) bool { return c28DeepAll(fns, fn, v, c28IsInput) }
 	}
 	req("HasPrefix(str,\"/\")", func(e c25Env) (an.EdgeSet, []ssa.CallInstruction) {
 		return an.CondEdges(e.fn, func(atom ssa.Value) (bool, bool) {
@@ -184,27 +202,21 @@ func runC28(c *an.Ctx) {
 				return false, false
 			}
 			ci := an.Callee(call)
-			if ci.Pkg == "strings" && ci.Name == "HasPrefix" && inRole(e, "in")(call.Call.Args[0]) && c28IsStr(call.Call.Args[1], "/") {
+			if ci.Pkg == "strings" && ci.Name == "HasPrefix" && isInputIn(e.fn)(call.Call.Args[0]) && c28IsStr(call.Call.Args[1], "/") {
 				return true, false
 			}
 			return false, false
 		}), nil
 	}, "success only for rooted input", "NewPath can succeed for an input that does not start with \"/\": gopath.Clean keeps leading \"..\" segments of relative paths, so the printed form may contain dot segments")
-	segAtE := func(e c25Env, idx int64) func(ssa.Value) bool {
-		return func(v ssa.Value) bool {
-			s0, i, ok := c27Indexed(c28Root(v))
-			return ok && inRole(e, "segs")(s0) && c25IsInt(idx)(i)
-		}
-	}
 	req("len(segments)>=2", func(e c25Env) (an.EdgeSet, []ssa.CallInstruction) {
 		isLenSeg := func(v ssa.Value) bool {
 			b, ok := c25RootBuiltin(v, "len")
-			return ok && inRole(e, "segs")(b.Call.Args[0])
+			return ok && isSegs(e.fn, b.Call.Args[0])
 		}
 		return c25RelEdges(e.fn, isLenSeg, c25IsInt(2), c25GE, 0).Union(c25RelEdges(e.fn, isLenSeg, c25IsInt(1), c25GT, 0)), nil
 	}, "success only with namespace and root segments", "NewPath can succeed with fewer than two segments")
 	req("segments[1]!=\"\"", func(e c25Env) (an.EdgeSet, []ssa.CallInstruction) {
-		return c25RelEdges(e.fn, segAtE(e, 1), isStrConst(""), c25NE, 0), nil
+		return c25RelEdges(e.fn, segAtIn(e.fn, 1), isStrConst(""), c25NE, 0), nil
 	}, "success only with a non-empty root", "NewPath can succeed with an empty root segment")
 
 	// ---- O2 stores into path.str / namespace / rootCid anywhere in the package
@@ -268,7 +280,7 @@ func runC28(c *an.Ctx) {
 		c.Check(good && n > 0, "O2", "R-FLOW", an.FuncName(s2s), "segments = Split(trim(Clean(str)))", s2s.Pos(), "segments are the cleaned path split on '/'", "StringToSegments "+why+": printed paths may keep '.', '..' or empty segments and re-parsing is not idempotent")
 	}
 	// ---- O2 Segments() re-derives from the stored string
-	if sm := p.Func(pp, "path", "Segments"); c.Need(sm != nil, "path.path.Segments") {
+	if sm := p.Func(pp, plainName, "Segments"); c.Need(sm != nil, "Segments() of the unexported Path implementation") {
 		good := false
 		for _, r := range an.Returns(sm) {
 			if call, ok := c25RootCall(r.Results[0], an.M(pp, "-", "StringToSegments")); ok {
@@ -277,7 +289,7 @@ func runC28(c *an.Ctx) {
 				}
 			}
 		}
-		c.Check(good, "O2", "R-FLOW", an.FuncName(sm), "Segments()=StringToSegments(p.str)", sm.Pos(), "segments derive from the printed string", "path.Segments() no longer derives from the stored string: String() and Segments() can disagree")
+		c.Check(good, "O2", "R-FLOW", an.FuncName(sm), "Segments()=StringToSegments(String())", sm.Pos(), "segments derive from the printed string", "path.Segments() no longer derives from the stored string: String() and Segments() can disagree")
 	}
 
 	// ---- O3 names
@@ -317,6 +329,71 @@ func c28TrimRoots(v ssa.Value, depth int) []ssa.Value {
 	}})
 }
 
+// c28NSField: the namespace field of the unexported Path implementation (set by runC28).
+var c28NSField *types.Var
+
+// c28PathRoles finds by role: the unexported struct type of package path implementing the exported interface Path
+// (name returned), its field returned by String() and its field returned by Namespace(), and the field of
+// ImmutablePath holding the root CID (type cid.Cid).
+func c28PathRoles(p *an.Prog) (plain string, fStr, fNS, fRoot *types.Var) {
+	pk := p.Pkg("path")
+	if pk == nil {
+		return
+	}
+	ifaceObj, _ := pk.Types.Scope().Lookup("Path").(*types.TypeName)
+	if ifaceObj == nil {
+		return
+	}
+	iface, _ := ifaceObj.Type().Underlying().(*types.Interface)
+	if iface == nil {
+		return
+	}
+	retField := func(typ, method string) *types.Var {
+		m := p.Func("path", typ, method)
+		if m == nil {
+			return nil
+		}
+		var out *types.Var
+		for _, r := range an.Returns(m) {
+			if len(r.Results) != 1 {
+				continue
+			}
+			if f, _ := c28FieldRead(r.Results[0]); f != nil {
+				out = f
+			}
+		}
+		return out
+	}
+	for _, name := range pk.Types.Scope().Names() {
+		tn, ok := pk.Types.Scope().Lookup(name).(*types.TypeName)
+		if !ok || tn.Exported() {
+			continue
+		}
+		nt, ok := tn.Type().(*types.Named)
+		if !ok {
+			continue
+		}
+		if _, isStruct := nt.Underlying().(*types.Struct); !isStruct {
+			continue
+		}
+		if types.Implements(nt, iface) || types.Implements(types.NewPointer(nt), iface) {
+			if s, n := retField(name, "String"), retField(name, "Namespace"); s != nil && n != nil {
+				plain, fStr, fNS = name, s, n
+			}
+		}
+	}
+	if in := p.Named("path", "ImmutablePath"); in != nil {
+		if st, ok := in.Underlying().(*types.Struct); ok {
+			for i := 0; i < st.NumFields(); i++ {
+				if an.TypeIs(st.Field(i).Type(), "github.com/ipfs/go-cid", "Cid") {
+					fRoot = st.Field(i)
+				}
+			}
+		}
+	}
+	return
+}
+
 func c28Keys(m map[string]bool) []string {
 	var out []string
 	for k, v := range m {
@@ -330,8 +407,9 @@ func c28Keys(m map[string]bool) []string {
 
 // c28Root: single provenance root or v itself.
 func c28Root(v ssa.Value) ssa.Value {
-	if r := c25Root1(v); r != nil {
-		return r
+	// plain provenance (not through fields of local structs: callers identify field reads themselves)
+	if rs := an.Roots(v, nil); len(rs) == 1 {
+		return rs[0]
 	}
 	return v
 }
@@ -417,12 +495,12 @@ func c28EvalBool(fn *ssa.Function, nsVal string) (bool, bool) {
 				}
 			}
 			if x.Op == token.MUL {
-				if f, _ := an.FieldOf(x.X); f != nil && f.Name() == "namespace" {
+				if f, _ := an.FieldOf(x.X); f != nil && f == c28NSField {
 					return constant.MakeString(nsVal), true
 				}
 			}
 		case *ssa.Field:
-			if f, _ := an.FieldOf(x); f != nil && f.Name() == "namespace" {
+			if f, _ := an.FieldOf(x); f != nil && f == c28NSField {
 				return constant.MakeString(nsVal), true
 			}
 		case *ssa.BinOp:
@@ -540,8 +618,14 @@ func c28URI(c *an.Ctx, uri, newPath *ssa.Function, nsVals []string) {
 				return true
 			}
 		case *ssa.UnOp:
-			if ia, ok := x.X.(*ssa.IndexAddr); ok && x.Op == token.MUL && ia.X == tableAlloc {
-				return true
+			if ia, ok := x.X.(*ssa.IndexAddr); ok && x.Op == token.MUL {
+				if ia.X == tableAlloc {
+					return true
+				}
+				// the table as a slice literal: tbl[:] of the same backing array
+				if sl, isSl := ia.X.(*ssa.Slice); isSl && sl.X == tableAlloc && sl.Low == nil && sl.High == nil {
+					return true
+				}
 			}
 		}
 		return false
@@ -786,6 +870,33 @@ func c28IsStr(v ssa.Value, want string) bool {
 	return ok && k.Kind() == constant.String && constant.StringVal(k) == want
 }
 
+// c28IsInput: the parsed input — a string parameter of an exported parser.
+func c28IsInput(l c28DV) bool {
+	prm, ok := l.v.(*ssa.Parameter)
+	if !ok {
+		return false
+	}
+	o := prm.Parent().Object()
+	return o != nil && o.Exported() && types.Identical(prm.Type().Underlying(), types.Typ[types.String])
+}
+
+// c28IsSegments: StringToSegments(input), or Path.Segments() of a parameter.
+func c28IsSegments(fns []*ssa.Function, l c28DV) bool {
+	call, ok := l.v.(*ssa.Call)
+	if !ok {
+		return false
+	}
+	ci := an.Callee(call)
+	if ci.Name == "StringToSegments" && ci.Pkg == an.Mod+"/path" && len(call.Call.Args) == 1 {
+		return c28DeepAll(fns, l.fn, call.Call.Args[0], c28IsInput)
+	}
+	if ci.Name == "Segments" && call.Call.IsInvoke() {
+		_, isP := c28Root(call.Call.Value).(*ssa.Parameter)
+		return isP
+	}
+	return false
+}
+
 // c28Stores: provenance of every store to path.str / path.namespace / ImmutablePath.rootCid.
 // c28DV is a value in the context of the function it lives in.
 type c28DV struct {
@@ -836,7 +947,14 @@ func c28Deep(fns []*ssa.Function, fn *ssa.Function, v ssa.Value, depth int) []c2
 					if o := h.Object(); o != nil && !o.Exported() {
 						n := 0
 						var sub []c28DV
-						for _, hr := range an.Returns(h) {
+						// values on failure returns (last result a known non-nil error) are never used by a caller
+						// that checked the error
+						rets := an.Returns(h)
+						if nres := h.Signature.Results().Len(); nres > 1 && an.IsErrorType(h.Signature.Results().At(nres-1).Type()) && ridx != nres-1 {
+							s1, u1 := c25SuccessReturns(h, nres-1)
+							rets = append(append([]*ssa.Return{}, s1...), u1...)
+						}
+						for _, hr := range rets {
 							if ridx < len(hr.Results) && !an.IsNilConst(hr.Results[ridx]) {
 								n++
 								sub = append(sub, c28Deep(fns, h, hr.Results[ridx], depth+1)...)
@@ -875,31 +993,8 @@ func c28Stores(c *an.Ctx, fStr, fNS, fRoot *types.Var, nsVals []string, immutabl
 	p := c.P
 	const pp = "path"
 	fns := p.PkgFuncs(pp)
-	// the parsed input: a string parameter of an exported parser handed to StringToSegments
-	isInput := func(l c28DV) bool {
-		prm, ok := l.v.(*ssa.Parameter)
-		if !ok {
-			return false
-		}
-		o := prm.Parent().Object()
-		return o != nil && o.Exported() && types.Identical(prm.Type().Underlying(), types.Typ[types.String])
-	}
-	// segments value: StringToSegments(input) or Path.Segments() of a parameter
-	isSegments := func(l c28DV) bool {
-		call, ok := l.v.(*ssa.Call)
-		if !ok {
-			return false
-		}
-		ci := an.Callee(call)
-		if ci.Name == "StringToSegments" && ci.Pkg == an.Mod+"/"+pp && len(call.Call.Args) == 1 {
-			return c28DeepAll(fns, l.fn, call.Call.Args[0], isInput)
-		}
-		if ci.Name == "Segments" && call.Call.IsInvoke() {
-			_, isP := c28Root(call.Call.Value).(*ssa.Parameter)
-			return isP
-		}
-		return false
-	}
+	isInput := c28IsInput
+	isSegments := func(l c28DV) bool { return c28IsSegments(fns, l) }
 	segElem := func(l c28DV, idx int64) bool {
 		s0, i, ok := c27Indexed(l.v)
 		return ok && c25IsInt(idx)(i) && c28DeepAll(fns, l.fn, s0, isSegments)
@@ -958,10 +1053,10 @@ func c28Stores(c *an.Ctx, fStr, fNS, fRoot *types.Var, nsVals []string, immutabl
 						good, why = false, "stored string derives from "+c25Desc(l.v)
 					}
 				}
-				c.Check(good, "O2", "R-FLOW", name, "path.str=clean(input)[+/]", st.Pos(), "printed form is the cleaned input (trailing slash preserved)", "path.str: "+why+": String() is not the canonical form and re-parsing it gives a different path")
+				c.Check(good, "O2", "R-FLOW", name, "String()=clean(input)[+/]", st.Pos(), "printed form is the cleaned input (trailing slash preserved)", "path.str: "+why+": String() is not the canonical form and re-parsing it gives a different path")
 				for _, ns := range an.StoresToField(fn, fNS, base) {
 					okNS := c28DeepAll(fns, fn, ns.Val, func(l c28DV) bool { return segElem(l, 0) })
-					c.Check(okNS, "O2", "R-FLOW", name, "path.namespace=segments[0]", ns.Pos(), "namespace is the first segment of the same segments", "path.namespace is stored from "+c25Desc(ns.Val)+", not from segments[0] of the parsed input: Namespace() disagrees with String()")
+					c.Check(okNS, "O2", "R-FLOW", name, "Namespace()=segments[0]", ns.Pos(), "namespace is the first segment of the same segments", "path.namespace is stored from "+c25Desc(ns.Val)+", not from segments[0] of the parsed input: Namespace() disagrees with String()")
 				}
 				continue
 			}
@@ -995,7 +1090,7 @@ func c28Stores(c *an.Ctx, fStr, fNS, fRoot *types.Var, nsVals []string, immutabl
 					}
 				}
 			}
-			c.Check(good, "O2", "R-FLOW", name, "path.str=/ns/cid", st.Pos(), "printed form is /"+nsConst+"/<stored root CID>", "path.str: "+why)
+			c.Check(good, "O2", "R-FLOW", name, "String()=/ns/cid", st.Pos(), "printed form is /"+nsConst+"/<stored root CID>", "path.str: "+why)
 		}
 		// rootCid stores decoded from a string: Decode(segments[1]) on the nil edge
 		for _, rs := range an.FieldStores(fn, fRoot) {
@@ -1004,7 +1099,7 @@ func c28Stores(c *an.Ctx, fStr, fNS, fRoot *types.Var, nsVals []string, immutabl
 				continue // a CID handed in (FromCid), checked with the printer
 			}
 			good := c28DeepAll(fns, fn, dc.Call.Args[0], func(l c28DV) bool { return segElem(l, 1) }) && an.OnNilEdgeOf(fn, dc, rs)
-			c.Check(good, "O2", "R-FLOW", name, "rootCid=Decode(segments[1])", rs.Pos(), "root CID decoded from the root segment on the nil edge", "ImmutablePath.rootCid is not cid.Decode(segments[1]) of the parsed path on its nil edge: RootCid() disagrees with the printed root")
+			c.Check(good, "O2", "R-FLOW", name, "root CID=Decode(segments[1])", rs.Pos(), "root CID decoded from the root segment on the nil edge", "ImmutablePath.rootCid is not cid.Decode(segments[1]) of the parsed path on its nil edge: RootCid() disagrees with the printed root")
 		}
 	}
 	c.Min("O2 stores to path.str", nStr, 1)
@@ -1016,7 +1111,17 @@ func c28Stores(c *an.Ctx, fStr, fNS, fRoot *types.Var, nsVals []string, immutabl
 func c28Names(c *an.Ctx, ipnsNS string) {
 	p := c.P
 	const ip = "ipns"
-	fMH := p.Field(ip, "Name", "multihash")
+	// the (single, unexported) string field of ipns.Name holding the raw multihash
+	var fMH *types.Var
+	if nn := p.Named(ip, "Name"); nn != nil {
+		if st, ok := nn.Underlying().(*types.Struct); ok {
+			for i := 0; i < st.NumFields(); i++ {
+				if b, ok := st.Field(i).Type().Underlying().(*types.Basic); ok && b.Kind() == types.String {
+					fMH = st.Field(i)
+				}
+			}
+		}
+	}
 	prefix, _ := c25ConstString(p, ip, "NamespacePrefix")
 	if !c.Need(fMH != nil && prefix != "", "ipns.Name.multihash / NamespacePrefix") {
 		return
@@ -1048,7 +1153,7 @@ func c28Names(c *an.Ctx, ipnsNS string) {
 				}
 			}
 		}
-		c.Check(good, "O3", "R-TABLE", an.FuncName(rk), "routing key = NamespacePrefix ++ multihash", rk.Pos(), "prefix written first, then the raw multihash", "Name.RoutingKey does not produce NamespacePrefix followed by the multihash: NameFromRoutingKey(RoutingKey()) fails or yields another name")
+		c.Check(good, "O3", "R-TABLE", an.FuncName(rk), "routing key = NamespacePrefix ++ name bytes", rk.Pos(), "prefix written first, then the raw multihash", "Name.RoutingKey does not produce NamespacePrefix followed by the multihash: NameFromRoutingKey(RoutingKey()) fails or yields another name")
 	}
 	// NameFromRoutingKey: HasPrefix(data, prefix) true edge; ID from TrimPrefix(data, prefix)
 	if nf := p.Func(ip, "", "NameFromRoutingKey"); c.Need(nf != nil && len(nf.Params) == 1, "ipns.NameFromRoutingKey") {
@@ -1114,7 +1219,7 @@ func c28Names(c *an.Ctx, ipnsNS string) {
 					good = false
 				}
 			}
-			c.Check(n > 0 && good, "O3", "R-CONST", an.FuncName(cm), "Cid()=CIDv1(libp2p-key, multihash)", cm.Pos(), "CID built with the libp2p-key codec over the name's multihash", "Name.Cid() does not build NewCidV1(cid.Libp2pKey, Cast(n.multihash)): NameFromCid(n.Cid()) is rejected or yields another name")
+			c.Check(n > 0 && good, "O3", "R-CONST", an.FuncName(cm), "Cid()=CIDv1(libp2p-key, name bytes)", cm.Pos(), "CID built with the libp2p-key codec over the name's multihash", "Name.Cid() does not build NewCidV1(cid.Libp2pKey, Cast(n.multihash)): NameFromCid(n.Cid()) is rejected or yields another name")
 		}
 		if nc := p.Func(ip, "", "NameFromCid"); c.Need(nc != nil && len(nc.Params) == 1, "ipns.NameFromCid") {
 			cp := nc.Params[0]
@@ -1149,7 +1254,7 @@ func c28Names(c *an.Ctx, ipnsNS string) {
 					good = fn == nc && len(fn.Params) == 1 && c25RootsIn(an.Recv(hc), []ssa.Value{fn.Params[0]})
 				}
 			}
-			c.Check(good, "O3", "R-FLOW", an.FuncName(fn), "Name.multihash from peer ID / checked CID hash", st.Pos(), "multihash set from a peer ID or the hash of the codec-checked CID", "Name.multihash is stored from "+c25Desc(st.Val)+": the name no longer round-trips through its peer-ID / CID forms")
+			c.Check(good, "O3", "R-FLOW", an.FuncName(fn), "name bytes from peer ID / checked CID hash", st.Pos(), "multihash set from a peer ID or the hash of the codec-checked CID", "Name.multihash is stored from "+c25Desc(st.Val)+": the name no longer round-trips through its peer-ID / CID forms")
 		}
 	}
 	c.Min("O3 stores to Name.multihash", nSt, 1)
@@ -1161,7 +1266,7 @@ func c28Names(c *an.Ctx, ipnsNS string) {
 				good = true
 			}
 		}
-		c.Check(good, "O3", "R-FLOW", an.FuncName(pm), "Peer()=peer.ID(multihash)", pm.Pos(), "peer ID is the stored multihash", "Name.Peer() does not return the stored multihash converted to peer.ID")
+		c.Check(good, "O3", "R-FLOW", an.FuncName(pm), "Peer()=peer.ID(name bytes)", pm.Pos(), "peer ID is the stored multihash", "Name.Peer() does not return the stored multihash converted to peer.ID")
 	}
 	// String / JSON / AsPath
 	if sm := p.Func(ip, "Name", "String"); c.Need(sm != nil, "ipns.Name.String") {
